@@ -4,6 +4,7 @@ import ModbusModel.Lemmas.Chunking
 import ModbusModel.Lemmas.Client
 import ModbusModel.Props.C09
 import ModbusModel.Props.C10
+import ModbusModel.Props.C11
 /-
   C01 – Requests reach the server exactly as issued, in Modbus wire format.
 -/
@@ -81,27 +82,28 @@ theorem server_waits_for_whole_frame_tcp (hdr : TcpHeader) (r : Request) (p : By
 
 /-- the two facts above make the TCP server decoder a `Framing`: by the chunking theorem the
     service sees each request exactly once, in order, under every fragmentation -/
-def tcpServerFraming : Framing (serverDecoder .tcp) where
-  Valid f := ∃ hdr r, requestPduSizeRaw r ≤ 253 ∧ r.canonical ∧ f = tcpFrame hdr (encodeRequestPdu r)
-  item f := match tcpServerDecode f with
-    | (.ok (some (h, r)), _) => ({ tid := h.transactionId, unit := h.unitId }, r)
-    | _ => default
-  complete := by
-    rintro s f rest ⟨hdr, r, hs, hc, rfl⟩
-    refine ⟨s, ?_⟩
-    have h1 := server_decodes_request_tcp hdr r rest hs hc
-    have h2 := server_decodes_request_tcp hdr r [] hs hc
-    simp only [List.append_nil] at h2
-    simp only [serverDecoder]
-    rw [h1, h2]
-    simp [Res.map]
-  waits := by
-    rintro s f p ⟨hdr, r, hs, _, rfl⟩ hp hne
-    refine ⟨s, ?_⟩
-    have h1 := server_waits_for_whole_frame_tcp hdr r p hs hp hne
-    simp only [serverDecoder]
-    rw [h1]
-    simp [Res.map]
+def tcpServerFraming : Framing (serverDecoder .tcp) :=
+  Framing.ofStrict
+    (fun f => ∃ hdr r, requestPduSizeRaw r ≤ 253 ∧ r.canonical ∧ f = tcpFrame hdr (encodeRequestPdu r))
+    (fun f => match tcpServerDecode f with
+      | (.ok (some (h, r)), _) => ({ tid := h.transactionId, unit := h.unitId }, r)
+      | _ => default)
+    (by
+      rintro s f rest ⟨hdr, r, hs, hc, rfl⟩
+      refine ⟨s, ?_⟩
+      have h1 := server_decodes_request_tcp hdr r rest hs hc
+      have h2 := server_decodes_request_tcp hdr r [] hs hc
+      simp only [List.append_nil] at h2
+      simp only [serverDecoder]
+      rw [h1, h2]
+      simp [Res.map])
+    (by
+      rintro s f p ⟨hdr, r, hs, _, rfl⟩ hp hne
+      refine ⟨s, ?_⟩
+      have h1 := server_waits_for_whole_frame_tcp hdr r p hs hp hne
+      simp only [serverDecoder]
+      rw [h1]
+      simp [Res.map])
 
 /-- **server_sees_request** (TCP, any fragmentation): for a request frame cut into reads in any
     way (any `Pending`s in between), the server connection's `next().await` yields exactly the
@@ -126,11 +128,79 @@ theorem server_sees_request_tcp (hdr : TcpHeader) (r : Request) (tail : Bytes) (
   rw [h1]
   have h3 := server_decodes_request_tcp hdr r [] hs hc
   simp only [List.append_nil] at h3
-  simp [tcpServerFraming, h3]
+  simp [tcpServerFraming, Framing.ofStrict, h3]
 
 -- non-vacuity
 example : (encodeRequestPdu (.readHoldingRegisters 0x082B 2)) = [0x03, 0x08, 0x2B, 0x00, 0x02] := by decide
 example : Request.canonical (.custom 0x41 [1, 2, 3]) := by
   refine ⟨by decide, by decide⟩
+
+end Modbus.Props.C01
+
+namespace Modbus.Props.C01
+open Modbus
+
+/-- the RTU server codec on a whole request frame (any typed request within the limit) -/
+theorem server_decodes_request_rtu (fd : FrameDecoder) (slave : UInt8) (r : Request) (rest : Bytes)
+    (hs : requestPduSizeRaw r ≤ 253) (ht : ∀ fc d, r ≠ .custom fc d) :
+    rtuServerDecode fd (rtuFrame slave (encodeRequestPdu r) ++ rest)
+      = (.ok (some (slave, r)), { dropped := [] }, rest) := by
+  have hl : requestPduLen (rtuFrame slave (encodeRequestPdu r) ++ rest) = .ok (some (encodeRequestPdu r).length) := by
+    have := Modbus.Props.C11.request_table_agrees slave r rest hs ht
+    simpa [rtuFrame, List.append_assoc] using this
+  have hc : r.canonical := by cases r <;> first | trivial | exact absurd rfl (ht _ _)
+  simp [rtuServerDecode, rtuDecode_complete requestPduLen fd slave _ rest hl, decodeRequest_encode r hs hc, Res.map]
+
+/-- the RTU server decoder is a `Framing` for the frames of typed requests -/
+def rtuServerFraming : Framing (serverDecoder .rtu) :=
+  Framing.ofStrict
+    (fun f => ∃ slave r, requestPduSizeRaw r ≤ 253 ∧ (∀ fc d, r ≠ .custom fc d) ∧ f = rtuFrame slave (encodeRequestPdu r))
+    (fun f => match rtuServerDecode {} f with
+      | (.ok (some (s, r)), _, _) => ({ tid := 0, unit := s }, r)
+      | _ => default)
+    (by
+      rintro fd f rest ⟨slave, r, hs, ht, rfl⟩
+      refine ⟨{ dropped := [] }, ?_⟩
+      have h1 := server_decodes_request_rtu fd slave r rest hs ht
+      have h2 := server_decodes_request_rtu {} slave r [] hs ht
+      simp only [List.append_nil] at h2
+      simp only [serverDecoder]
+      rw [h1, h2]
+      simp [Res.map])
+    (by
+      rintro fd f p ⟨slave, r, hs, ht, rfl⟩ hp hne
+      refine ⟨fd, ?_⟩
+      have hl : requestPduLen (rtuFrame slave (encodeRequestPdu r)) = .ok (some (encodeRequestPdu r).length) := by
+        have := Modbus.Props.C11.request_table_agrees slave r [] hs ht
+        simpa [rtuFrame, List.append_assoc] using this
+      have h1 := rtuDecode_waits requestPduLen requestPduLen_stable fd slave _ p hl hp hne
+      simp only [serverDecoder, rtuServerDecode]
+      rw [h1]
+      simp [Res.map])
+
+/-- **server_sees_request** (RTU-over-TCP and serial RTU – the same loop and codec –, any
+    fragmentation): the server connection's `next().await` yields exactly the issued typed
+    request tagged with the issued slave id -/
+theorem server_sees_request_rtu (slave : UInt8) (r : Request) (tail : Bytes) (evs : List ReadEv)
+    (hs : requestPduSizeRaw r ≤ 253) (ht : ∀ fc d, r ≠ .custom fc d)
+    (hfeed : ∀ e ∈ evs, e.isFeed = true)
+    (hdata : dataOf evs = rtuFrame slave (encodeRequestPdu r) ++ tail) :
+    ∃ fd r' evs', awaitNext (serverDecoder .rtu) {} {} evs
+        = (.item ({ tid := 0, unit := slave }, r), fd, r', evs')
+      ∧ r'.buffer ++ dataOf evs' = tail := by
+  have hv : rtuServerFraming.Valid (rtuFrame slave (encodeRequestPdu r)) := ⟨slave, r, hs, ht, rfl⟩
+  have inv : FrameInv ({} : ReadFrame) (rtuFrame slave (encodeRequestPdu r)) :=
+    ⟨rfl, rfl, fun _ => ⟨List.nil_prefix, fun e => by simp [rtuFrame] at e⟩⟩
+  have hd0 : ({} : ReadFrame).buffer ++ dataOf evs = rtuFrame slave (encodeRequestPdu r) ++ tail := by
+    show [] ++ dataOf evs = _
+    rw [List.nil_append]; exact hdata
+  have H := next_delivers (D := serverDecoder .rtu) rtuServerFraming (rtuFrame slave (encodeRequestPdu r)) tail hv
+    evs ({} : FrameDecoder) ({} : ReadFrame) hfeed inv hd0
+  obtain ⟨s', r', evs', h1, h2, _⟩ := H
+  refine ⟨s', r', evs', ?_, h2⟩
+  rw [h1]
+  have h3 := server_decodes_request_rtu {} slave r [] hs ht
+  simp only [List.append_nil] at h3
+  simp [rtuServerFraming, Framing.ofStrict, h3]
 
 end Modbus.Props.C01
